@@ -19,6 +19,15 @@ CHECKS = {
  "C04": ("model_checking", "complete enumeration of the finite precedence product, reference precedence model",
          "every chain of up to three nested REUSE.toml files (13^3 plus decoy-table variants; all 49^3 in thorough) x 24 file states, plus dep5 cells, judged per file against refmodel.precedence on the (value, source, source_type) items of lint --json",
          "one glob ('**') per table; values distinct per source so provenance is observable", "4/C04"),
+ "C06": ("model_checking", "complete product enumeration (identifier class x use x provision) against a set-algebra inventory model",
+         "7 identifier classes x 11 ways of use x 7 ways of provision (539 trees, plus a second representative per class), each through the real `reuse lint --json`, all five inventory categories and used_licenses compared with refmodel.inventory; plus three trees over all bundled SPDX identifiers",
+         "one representative identifier per class (two in thorough); SPDX data files are the authority for known/deprecated", "4/C06"),
+ "C01": ("model_checking", "complete exploration of a defect-injection lattice over compliant-by-construction trees, verdict model derived from the abstract tree description",
+         "7 base trees (headers, .license siblings + binaries, REUSE.toml override, nested closest/aggregate, dep5, compound expressions + LicenseRef, odd-but-valid TOML values) x {no VCS, Git} x every set of <= 2 (quick) / <= 4 (thorough) of 14 atomic defects, plus non-covered clutter in every tree; exit status, every category's offender set, summary.compliant and files[] compared with refmodel.verdict",
+         "trees of <= 7 covered files; unreadable files simulated by a failing open() seam (sandbox runs as root)", "4/C01"),
+ "C13": ("model_checking", "complete exploration of the C01 lattice x output formats x lint-file subsets/spellings, cross-format differential oracle",
+         "for every C01 state the five lint invocations are parsed and must agree per category and with the exit status and JSON summary; for defect sets up to the lint-file bound all 32 subsets of a 5-path menu x 4 spellings go through lint-file and must equal lint's per-file problems",
+         "C locale messages; names with spaces/non-ASCII but no newline", "4/C13"),
 }
 PENDING_REASON = "check not built yet in this session (design in DESIGN.md section 4); not claimed until its machinery exists"
 
